@@ -144,8 +144,8 @@ def run(tier, seed, which="C12"):
             RED[ch] = chr(97 + k_)
     sg0 = sg
     sg = lambda t, p: sg0([RED[c] for c in t], [RED[c] for c in p])   # noqa: E731  distance as the guide tree sees it
-    for j, want in enumerate([256, 256, 255, 257] if tier == "quick" else [256, 256, 256, 255, 257, 512, 512, 511, 256, 256]):
-        L = int(want * 1.6) + rng.randint(0, 40)
+    for j, want in enumerate([256, 256, 256, 256, 255, 257] if tier == "quick" else [256, 256, 256, 256, 256, 255, 257, 512, 512, 511, 256, 256]):
+        L = int(want * [1.6, 2.5, 2.0][j % 3]) + rng.randint(0, 40)
         d = gen.rand_seq(rng, gen.AA, L)
         xs = [at_distance(d, gen.AA, want) for _ in range(2)]
         if any(x is None for x in xs):
